@@ -4,7 +4,7 @@
     (CryptoFacts.chapoly_open_seal, chapoly_seal_length).  What is left to
     cryptography is exactly the [no_forgery] event: Poly1305 accepting a tag
     for a (nonce, chunk) pair the writer never produced. *)
-From Age Require Import Base IO Stream StreamFacts Crypto CryptoFacts.
+From Age Require Import Base IO Stream StreamFacts Crypto CryptoFacts CryptoFacts2.
 
 Theorem C02_chacha20poly1305_prefix_or_forgery :
   forall (cs : nat) (key p ct : bytes),
@@ -39,6 +39,23 @@ Theorem C02_chacha20poly1305_open_checks_tag :
     length c = (length p + 16)%nat.
 Proof. exact chapoly_open_length. Qed.
 
+(** ... exactly: a chunk opens iff its last 16 bytes are the Poly1305 tag of
+    the rest under the one-time key of (key, nonce), and then to the XOR of the
+    rest with the key stream; any other 16 trailing bytes are refused. *)
+Theorem C02_chacha20poly1305_open_iff_tag :
+  forall k n c p,
+    chapoly_open k n c = Some p <->
+    (16 <= length c)%nat /\
+    skipn (length c - 16) c = aead_tag k n (firstn (length c - 16) c) /\
+    p = chacha_xor k n 1 (firstn (length c - 16) c).
+Proof. exact chapoly_open_spec. Qed.
+
+Theorem C02_chacha20poly1305_wrong_tag_refused :
+  forall k n ct t, length t = 16%nat -> t <> aead_tag k n ct -> chapoly_open k n (ct ++ t) = None.
+Proof. exact chapoly_open_wrong_tag. Qed.
+
 Print Assumptions C02_chacha20poly1305_prefix_or_forgery.
+Print Assumptions C02_chacha20poly1305_open_iff_tag.
+Print Assumptions C02_chacha20poly1305_wrong_tag_refused.
 Print Assumptions C02_chacha20poly1305_clean_eof_only_if_untouched.
 Print Assumptions C02_chacha20poly1305_open_checks_tag.
